@@ -315,15 +315,19 @@ class Path:
                 self.decisions.append(True)
             self.fork_positions[self.pos] = len(self.index_ctx)
             self.pos += 1
+            forked = True
         else:
             d = can_t
+            forked = False
         if getattr(self, "_local", False):
             self.__dict__.setdefault("temp", []).append(cond if d else z3.Not(cond))
         else:
             self.pc.append(cond if d else z3.Not(cond))
+            if forked:
+                self.__dict__.setdefault("forks", []).append(cond if d else z3.Not(cond))
         return d
 
-    def local_paths(self, thunk, max_paths=8):
+    def local_paths(self, thunk, max_paths=8, catch=False):
         """Explore the paths of a small pure computation locally (conditions kept as temporary assumptions) so
         that the caller can merge the results into one if-then-else term instead of forking the whole path.
         Returns [(conditions, value)]; any exception of the computation propagates (caller falls back to forking)."""
@@ -339,7 +343,14 @@ class Path:
                 self._local = True
                 mark = len(temp)
                 try:
-                    v = thunk()
+                    try:
+                        v = thunk()
+                    except Undecided:
+                        raise
+                    except Exception as e:
+                        if not catch:
+                            raise
+                        v = LocalRaise(e)
                     results.append((list(temp[mark:]), v))
                 finally:
                     del temp[mark:]
@@ -350,6 +361,21 @@ class Path:
         finally:
             self.decisions, self.pos, self._local, self.fork_positions = outer
         return results
+
+
+def exc_text(e, limit=300):
+    """text of an exception whose arguments may be symbolic"""
+    try:
+        return f"{type(e).__name__}: {e}"[:limit]
+    except Undecided:
+        return f"{type(e).__name__}: {e.args!r}"[:limit]
+
+
+class LocalRaise:
+    """outcome of a local path that raised (see Path.local_paths(catch=True))"""
+
+    def __init__(self, exc):
+        self.exc = exc
 
 
 class DeadPath(Exception):
